@@ -170,6 +170,15 @@ def check_aes(pid, tier, replay=None):
         # one CBC decrypt call of more than 4 GiB (2^32 + 1..7 blocks) per family and key size, OpenSSL oracle
         bj = [("cbc", f, chk.seed * 43 + 1, 20, 300) for f in whats["cbc"]]
         results += aescheck.sweep(drv, bj, env={"VERIF_CBC_BIG": "1"})
+    if not replay:
+        # "for any alignment / buffers that end at an unmapped page": the same families once more with every buffer placed
+        # against a PROT_NONE page (a read past the input that happens to be harmless elsewhere faults here; seed C03-r4)
+        gj = [(w, f, chk.seed * 53 + 9, max(150, nops // 3), maxlen) for w, fams in whats.items() for f in fams]
+        for gmode in ("1", "2"):
+            for r in aescheck.sweep(drv, gj, env={"VERIF_GUARD": gmode}):
+                r["env"] = {"VERIF_GUARD": gmode}
+                r["monitors"] = [m.replace("C08-", prefixes[0] + "guard-") if "C08-" in m else m for m in r["monitors"]]
+                results.append(r)
     if pid == "C02":
         # one-shot counter-carry sweep: 331 block counts (200..530) so that the 8-bit counter shortcut wraps at every phase
         rounds = 1 if tier == "quick" else 4
@@ -177,7 +186,7 @@ def check_aes(pid, tier, replay=None):
         results += aescheck.sweep(drv, sj, env={"VERIF_GCM_SWEEP": "2"})
     total, hist, fam_ops = 0, {}, {}
     for r in results:
-        key = "%s/%s" % (r["what"], r["fam"]) + ("/big-update" if "VERIF_GCM_BIG" in (r.get("env") or {}) else "/big-cbc" if "VERIF_CBC_BIG" in (r.get("env") or {}) else "/carry-sweep" if r.get("env") else "")
+        key = "%s/%s" % (r["what"], r["fam"]) + ("/big-update" if "VERIF_GCM_BIG" in (r.get("env") or {}) else "/big-cbc" if "VERIF_CBC_BIG" in (r.get("env") or {}) else ("/guard%s" % r["env"]["VERIF_GUARD"]) if "VERIF_GUARD" in (r.get("env") or {}) else "/carry-sweep" if r.get("env") else "")
         total += r["ops"]
         fam_ops[key] = fam_ops.get(key, 0) + r["ops"]
         for k, v in r["hist"].items():
@@ -193,6 +202,9 @@ def check_aes(pid, tier, replay=None):
             while lo < hi and not r.get("crash"):
                 mid = (lo + hi) // 2
                 rr = aescheck.run_one(drv, r["what"], r["fam"], int(r["args"][2]), mid, int(r["args"][4]), env=r.get("env") or None)
+                if "VERIF_GUARD" in (r.get("env") or {}):
+                    rr["monitors"] = [m.replace("C08-", prefixes[0] + "guard-") if "C08-" in m else m for m in rr["monitors"]]
+                    rr["env"] = r["env"]
                 bad = [m for m in rr["monitors"] if any(p in m for p in prefixes)] or [d for d in rr["diffs"] if d["op"].split()[0] in kinds]
                 if bad:
                     hi, best = mid, rr
@@ -675,14 +687,43 @@ def check_c08(pid, tier, replay=None):
     envs = [{"VERIF_GUARD": "1"}, {"VERIF_GUARD": "2"}]
     results = _mode_sweep(chk, tier, envs, ("C08-",))
     total = _report_mode_results(chk, results, ("C08-",))
+    # multi-hash updates and rolling-hash runs with the scanned bytes ending / beginning at an unmapped page (seed C08-r4)
+    import subprocess
+    from concurrent.futures import ThreadPoolExecutor
+    mdrv = vlib.harness_bin("drv_mh")
+    rdrv = vlib.harness_bin("drv_rolling", cflags=("-Wl,--wrap=_rolling_hash2_run_until",), libs=())
+    d = vlib.scratch()
+    nm, nr = (500, 4000) if tier == "quick" else (4000, 40000)
+    gjobs = [("mh", [mdrv, a, f, str(chk.seed * 11 + 1), str(nm), "5000"], (), g) for a in ("mh_sha1", "mh_sha256", "mh_sha1_murmur")
+             for f in ("base", "sse", "avx", "avx2", "avx512", "pub") for g in ("1", "2")]
+    gjobs += [("rh", [rdrv, i, str(chk.seed * 11 + 2), str(nr), "600"], ("big=0",), g) for i in ("base", "00", "04", "pub") for g in ("1", "2")]
+
+    def grun(job):
+        kind, argv, tail, g = job
+        ops = os.path.join(d, "g08_%s_%s_%s_%s_o" % (kind, argv[1], argv[2], g))
+        res = os.path.join(d, "g08_%s_%s_%s_%s_r" % (kind, argv[1], argv[2], g))
+        rr = subprocess.run(argv + [ops, res] + list(tail), capture_output=True, text=True, env=dict(os.environ, VERIF_GUARD=g))
+        lines = (open(res).read().split("\n") if os.path.exists(res) else []) + (rr.stdout + "\n" + rr.stderr).split("\n")
+        return job, rr.returncode, sorted(set(l for l in lines if l.startswith("MONITOR C08-"))), len(lines)
+    with ThreadPoolExecutor(max_workers=12) as ex:
+        gres = list(ex.map(grun, gjobs))
+    for (kind, argv, tail, g), rc, mons, nl in gres:
+        key = "%s/%s%s" % (kind, argv[1], ("/" + argv[2]) if kind == "mh" else "")
+        ok = not mons and rc in (0,)
+        total += nl
+        chk.oblige("%s [VERIF_GUARD=%s]" % (key, g), ok, "exit=%d monitors=%d" % (rc, len(mons)))
+        if not ok:
+            chk.violation("%s in %s" % (mons[0].split()[1] if mons else "fault (exit %d)" % rc, key),
+                          {"kind": "input", "family": key, "argv": argv[1:] + list(tail), "env": "VERIF_GUARD=" + g, "monitor": (mons or [""])[0][:300]},
+                          match={"family": key, "monitor": "guard"})
     chk.cov["evaluations"] = total
-    chk.cov["distinct_nontrivial"] = len(results)
+    chk.cov["distinct_nontrivial"] = len(results) + len(gres)
     chk.cov["exhaustive"] = False
     chk.trusted = ["Lean 4.33.0 kernel; axioms propext, Classical.choice, Quot.sound",
                    "harness/guard.h: every data/key/IV/tweak/tag/AAD buffer flush against a PROT_NONE page (end-flush and start-flush), canary slack on the other side; input checksums",
                    "a wide load inside a kernel is only visible to the guard pages, not to the model"]
     chk.assumptions = ["manager/context/key-data objects are not yet guard-placed (alignment contracts): covered by canaries only",
-                       "mh_* and rolling-hash buffers are covered by their own drivers' canaries, not by guard pages"]
+                       "mh_* update buffers and rolling-hash run buffers are guard-placed too (contexts / state objects are not)"]
     return chk.finish(level="proof", rule="seeded op streams per family with every buffer placed against an inaccessible page; "
                       "length classes 0,<16,16k,tail,big incl. CBC len=0; any fault or damaged canary is a violation with the op as replay")
 
